@@ -5,7 +5,9 @@
     the node with itself (Bitcoin's duplicate-the-last rule seen top-down).
     [mbranch k l i] is the list of siblings from leaf [i] up to the root. *)
 From Coq Require Import List Arith NArith Bool Relations.
+From C33 Require Import C18.Model.
 Import ListNotations.
+Open Scope nat_scope.
 
 Section Spec.
   Variable T : Type.
@@ -68,6 +70,17 @@ Section Spec.
 
   Definition dup_tail_related : list T -> list T -> Prop :=
     clos_refl_sym_trans _ dup_step.
+
+  (** multi-layer: the child chains partition the transaction list in order and
+      every child hash is the tree root of the full hashes of its slice *)
+  Fixpoint chains_cover (txs : list (mtx T)) (next : nat) (cs : list (childchain T)) : Prop :=
+    match cs with
+    | [] => next = length txs
+    | c :: tl =>
+        cc_start c = next /\ 0 < cc_count c /\
+        cc_hash c = spec_root (map snd (firstn (cc_count c) (skipn (cc_start c) txs))) /\
+        chains_cover txs (next + cc_count c) tl
+    end.
 End Spec.
 
 (** executable: does the list end in an aligned repeated block? *)
